@@ -42,8 +42,11 @@ def build(repo, work):
     return exe
 
 
-def _run(exe, args, timeout=600):
-    p = subprocess.run([exe] + args, capture_output=True, text=True, timeout=timeout)
+def _run(exe, args, timeout=10800):
+    try:
+        p = subprocess.run([exe] + args, capture_output=True, text=True, timeout=timeout)
+    except subprocess.TimeoutExpired:
+        return {"error": "replay binary timed out after %d s" % timeout}, 2
     out = p.stdout.strip().split("\n")[-1] if p.stdout.strip() else ""
     try:
         return json.loads(out), p.returncode
@@ -72,7 +75,7 @@ def run_witness(repo, work, finding):
 
 def search_counterexample(repo, work, pid, failure, seed):
     """public-API observation of the property whose obligation failed"""
-    r = probe(repo, work, pid, seed, int(os.environ.get("VERIF_CEX_BUDGET", "6000")))
+    r = probe(repo, work, pid, seed, int(os.environ.get("VERIF_CEX_BUDGET", {"C11": "40000", "C01": "40000", "C02": "40000", "C16": "40000", "C14": "40000"}.get(pid, "6000"))))
     if r.get("error"):
         return {"found": False, "note": r["error"][:400]}
     if r.get("found"):
